@@ -42,10 +42,14 @@ def spec_heap(schema) -> H:
     return _HS[k]
 
 
-def agree(hs: H, h: H):
+def agree(hs: H, h: H, skip=('f_attack_step_nodes',)):
+    """every object of HS is unchanged in h — except the extended property `attack_step_nodes` that generation writes
+    on assets (outside the model's serialized view)"""
     x = A('x!ag')
     out = [hs.alloc >= 0, hs.alloc <= h.alloc]
     for n in hs.arr:
+        if n in skip:
+            continue
         out.append(FA([x], z3.Implies(z3.And(x >= 0, x < hs.alloc), z3.Select(h.arr[n], x) == z3.Select(hs.arr[n], x)), [z3.Select(h.arr[n], x)]))
     return z3.And(*out)
 
